@@ -124,6 +124,23 @@ def cases(rng, tier):
             return isogen.Box(code, list(copy.deepcopy(before)) + [isogen.data_box(dt, pl)] + list(copy.deepcopy(after)))
         u = isogen.udta([isogen.meta([isogen.ilst([it(isogen.TITLE, 1, b"T"), it(isogen.YEAR, 0, (2011).to_bytes(4, "big")), it(isogen.POSTER, 13, b"\xff\xd8"), it(isogen.SUMMARY, 1, b"S")])])])
         out.append(("item_children_%d" % i, movie_with(u), {"title": b"T", "year": 2011, "poster": b"\xff\xd8", "summary": b"S"}))
+    # a repeated item AFTER all four kinds have occurred, and unrelated items in between: the LAST occurrence wins wherever it stands
+    def itx(code, dt, pl):
+        return isogen.ilst_item(code, dt, pl)
+    four = [itx(isogen.TITLE, 1, b"old"), itx(isogen.YEAR, 1, b"1999"), itx(isogen.POSTER, 13, b"\x01"), itx(isogen.SUMMARY, 1, b"s-old")]
+    for i, extra in enumerate(([itx(isogen.TITLE, 1, b"new")], [itx(isogen.YEAR, 0, (2008).to_bytes(4, "big"))], [itx(isogen.POSTER, 13, b"\x02\x03")], [itx(isogen.SUMMARY, 1, b"s-new")],
+                               [itx(b"\xa9too", 1, b"x"), itx(isogen.TITLE, 1, b"new"), itx(b"\xa9ART", 1, b"y"), itx(isogen.SUMMARY, 1, b"s-new")])):
+        exp = {"title": b"old", "year": 1999, "poster": b"\x01", "summary": b"s-old"}
+        for e in extra:
+            if e.typ == isogen.TITLE:
+                exp["title"] = b"new"
+            elif e.typ == isogen.YEAR:
+                exp["year"] = 2008
+            elif e.typ == isogen.POSTER:
+                exp["poster"] = b"\x02\x03"
+            elif e.typ == isogen.SUMMARY:
+                exp["summary"] = b"s-new"
+        out.append(("dup_after_four_%d" % i, movie_with(isogen.udta([isogen.meta([isogen.ilst(copy.deepcopy(four) + extra)])])), exp))
     out.append(("dup_title", movie_with(isogen.udta([isogen.meta([isogen.ilst([isogen.ilst_item(isogen.TITLE, 1, b"first"), isogen.ilst_item(isogen.TITLE, 1, b"second")])])])), None))
     out.append(("no_udta", movie_with(None), {}))
     out.append(("udta_no_meta", movie_with(isogen.udta([isogen.Box("free", [])])), {}))
@@ -168,10 +185,27 @@ def check(rep):
                 stats["model_skipped"] += 1
             elif t:
                 ties.append(("model_vs_impl_%s_%d" % (profile, len(ties)), dict(t, kind="correspondence", case=label, profile=profile, file=data.hex()[:20000])))
+    # a stream error while the header is read: the reader may report it, but may never "succeed" with the tags missing
+    # (an accessor that answers None / a different value for a tag the file encodes)
+    ff = movie_with(isogen.udta([isogen.meta([isogen.ilst([isogen.ilst_item(isogen.TITLE, 1, b"Faulty medium"), isogen.ilst_item(isogen.YEAR, 1, b"2021"),
+                                                           isogen.ilst_item(isogen.POSTER, 13, b"\xff\xd8jpeg"), isogen.ilst_item(isogen.SUMMARY, 1, b"about")])])]))
+    (fb, _), = readcheck.run_both([{"data": ff}], "debug", want_model=False, revisit=False)
+    fwant = fb.get("meta")
+    fres = readcheck.run_both([{"data": ff, "fail": k} for k in range(fb.get("ops_open", 0))], "debug", want_model=False, revisit=False)
+    stats["fault_points"] = len(fres)
+    for k, (fi, _) in enumerate(fres):
+        if fi.get("fired") and fi.get("open") == "ok" and fi.get("meta") != fwant:
+            fails.append(("fault_swallowed_%d" % k, {"kind": "input", "what": "with the %d-th stream call of read_header failing the file still opens, and the accessors return %s instead of %s"
+                                                     % (k, str(fi.get("meta"))[:120], str(fwant)[:120]), "fault_index": k, "file": ff.hex()}))
+            break
     # known finding D93: a well-known data type outside the library's 4-entry DataType table (e.g. 14 = PNG cover art) makes the whole file unreadable
     png = movie_with(isogen.udta([isogen.meta([isogen.ilst([isogen.ilst_item(isogen.TITLE, 1, b"T"), isogen.ilst_item(isogen.POSTER, 14, b"\x89PNG")])])]))
     (ip, _), = readcheck.run_both([{"data": png}], "debug", want_model=False)
-    if ip.get("open") != "ok" or (ip.get("meta") or {}).get("poster") != b"\x89PNG".hex():
+    pmeta = ip.get("meta") if isinstance(ip.get("meta"), dict) else {}
+    if ip.get("open") == "ok" and pmeta.get("title") != b"T".hex():
+        # NOT the known finding: the file opens, but the title item next to the PNG cover is not returned
+        fails.append(("png_neighbour", {"kind": "input", "what": "a file with a title and a PNG cover opens but title() returns %s, the file encodes 'T'" % pmeta.get("title"), "file": png.hex()}))
+    elif ip.get("open") != "ok" or pmeta.get("poster") != b"\x89PNG".hex():
         what = "a PNG poster (data type 14) gives open=%s, poster=%s" % (ip.get("open"), (ip.get("meta") or {}).get("poster") if isinstance(ip.get("meta"), dict) else None)
         if any(f["id"] == "D93" for f in common.known_findings() if f["property"] == "C18" and f["status"] == "known"):
             rep.known("D93", what)
